@@ -78,6 +78,17 @@ func VH_C02_default_limit() {
 	ok2 := msg.canRead(sz2)
 	vAssert(ok2 == (uint64(sz2) <= before), "C02.limit.second-grant")
 	vAssert(msg.rlimit <= before, "C02.limit.second-monotone")
+	// Unread gives back exactly what it is told, ResetReadLimit installs exactly the new budget
+	if ok2 {
+		left := msg.rlimit
+		msg.Unread(sz2)
+		vAssert(msg.rlimit == left+uint64(sz2) && msg.rlimit == before, "C02.limit.unread-restores-the-charge")
+	}
+	nl := vNondetU64()
+	msg.ResetReadLimit(nl)
+	vAssert(msg.rlimit == nl, "C02.limit.reset-installs-the-budget")
+	sz3 := Size(vNondetU32())
+	vAssert(msg.canRead(sz3) == (uint64(sz3) <= nl), "C02.limit.reset-budget-is-not-reinitialised")
 }
 
 // H-depth: every dereference strictly decreases the depth budget (as an unsigned integer, no
